@@ -191,6 +191,9 @@ impl Report {
             self.line(&json!({"t":"viol","sig":sig,"detail":detail,"replay":replay}));
         }
     }
+    pub fn raw(&self, v: Value) {
+        self.line(&v);
+    }
     pub fn inconclusive(&self, why: &str) {
         self.line(&json!({"t":"inconclusive","why":why}));
     }
